@@ -10,32 +10,31 @@
 EXTENDS Resolver, TraceLib
 VARIABLE l
 
-WorldOf(e) == WorldOfSeq(e.pkgs)
-TargetsOf(e) == TargetsOfSeq(e.targets)
-
-Judge(e) ==
-  LET w  == WorldOf(e)
-      ts == TargetsOf(e)
-  IN
+Judge(e, w, ts, robust) ==
   IF ~WellFormed(w) \/ Len(ts) = 0 THEN {V("OutsideDomain", "-", "world", "-")}
   ELSE
-    (IF e.raised \/ e.raised2 THEN {V("NoCrash", "-", IF e.raised THEN e.exc ELSE e.exc2, IF SlotMoved(w) THEN "slotmoved" ELSE "-")} ELSE {})
+    (IF e.raised \/ e.raised2
+     THEN {V("NoCrash", "-", IF e.raised THEN e.exc ELSE e.exc2, IF SlotMoved(w) THEN "slotmoved" ELSE "-")} ELSE {})
     \cup (IF ~e.raised /\ ~OpsKnown(w, e.ops) THEN {V("OutsideDomain", "-", "ops", "-")}
           ELSE IF ~e.raised /\ e.ok THEN PlanViolations(w, SeqSet(ts), e.ops) ELSE {})
     \cup (IF ~e.raised /\ ~e.raised2 /\ (e.ok # e.ok2 \/ e.ops # e.ops2)
           THEN {V("Deterministic", "-", "ops", "-")} ELSE {})
     \* a crash leaves the targets unsatisfied: for the policy it is a failed resolution
-    \cup (IF e.raised THEN PolicyViolations(e.kind, w, ts, FALSE, <<>>)
-          ELSE IF OpsKnown(w, e.ops) THEN PolicyViolations(e.kind, w, ts, e.ok, e.ops) ELSE {})
+    \cup (IF e.raised THEN PolicyViolationsIn(robust, e.kind, w, ts, FALSE, <<>>)
+          ELSE IF OpsKnown(w, e.ops) THEN PolicyViolationsIn(robust, e.kind, w, ts, e.ok, e.ops) ELSE {})
 
 ReportV(tid, i, bad) == \A v \in bad : PrintT(<<"VERDICT", tid, i, v.clause, [pkg |-> v.pkg, what |-> v.what, via |-> v.via]>>)
-Judged(e) == IF WellFormed(WorldOf(e)) THEN PolicyJudged(e.kind, WorldOf(e), TargetsOf(e)) ELSE 0
 
 TraceInit == l = 0
 TraceNext == /\ l < Len(Tr)
              /\ l' = l + 1
-             /\ ReportV(Tr[l'].tid, Tr[l'].i, Judge(Tr[l']))
-             /\ (Judged(Tr[l']) = 0 \/ PrintT(<<"JUDGED", Tr[l'].tid, Judged(Tr[l'])>>))
+             /\ LET e  == Tr[l']
+                    w  == WorldOfSeq(e.pkgs)
+                    ts == TargetsOfSeq(e.targets)
+                    robust == WellFormed(w) /\ Len(ts) > 0 /\ e.kind \in {"upgrade", "min"} /\ Robust(w, SeqSet(ts))
+                    n  == PolicyJudgedIn(robust, e.kind, w, ts)
+                IN /\ ReportV(e.tid, e.i, Judge(e, w, ts, robust))
+                   /\ (n = 0 \/ PrintT(<<"JUDGED", e.tid, n>>))
              /\ EndMark(l')
 TraceSpec == TraceInit /\ [][TraceNext]_l
 =========================================================================
